@@ -44,7 +44,9 @@ XMemW == << <<"gpr", "", "", "1">>, <<"gpr", "imd", "", "1">>, <<"gpr", "imd0", 
             <<"gpr", "", "gpr", "1">>, <<"gpr", "", "gpr", "n">>, <<"gpr", "imd", "gpr", "1">>, <<"gpr", "imd", "gpr", "n">>,
             <<"gpr", "imd0", "gpr", "n">>, <<"gpr", "id", "gpr", "n">>,
             <<"", "", "gpr", "1">>, <<"", "", "gpr", "n">>, <<"", "imd", "gpr", "n">>, <<"", "id", "gpr", "n">>,
-            <<"", "imd", "", "1">>, <<"", "imd0", "", "1">> >>
+            <<"", "imd", "", "1">>, <<"", "imd0", "", "1">>,
+            \* gather / scatter addresses: a vector register as index
+            <<"gpr", "", "ymm", "n">>, <<"gpr", "imd", "xmm", "n">>, <<"gpr", "", "zmm", "1">> >>
 X86WK == [j \in 1..7 |-> Reg(XRegW[j], "", "")]
          \o <<Reg("zmm", "", "y"), Reg("xmm", "", "y"), Imm("int"), Idf>>
          \o [j \in 1..Len(XMemW) |-> Mem(XMemW[j][1], XMemW[j][2], XMemW[j][3], XMemW[j][4], "f", "f")]
